@@ -1,9 +1,30 @@
+#[cfg(feature = "verif")]
+pub mod constants;
+#[cfg(not(feature = "verif"))]
 mod constants;
+#[cfg(feature = "verif")]
+pub mod cpi;
+#[cfg(not(feature = "verif"))]
 mod cpi;
+#[cfg(feature = "verif")]
+pub mod errors;
+#[cfg(not(feature = "verif"))]
 mod errors;
+#[cfg(feature = "verif")]
+pub mod events;
+#[cfg(not(feature = "verif"))]
 mod events;
+#[cfg(feature = "verif")]
+pub mod ported;
+#[cfg(not(feature = "verif"))]
 mod ported;
+#[cfg(feature = "verif")]
+pub mod state;
+#[cfg(not(feature = "verif"))]
 mod state;
+#[cfg(feature = "verif")]
+pub mod utils;
+#[cfg(not(feature = "verif"))]
 mod utils;
 
 pub mod instructions;
